@@ -1,5 +1,5 @@
 (* C19 — A failed rotation or unwritable target never loses the log call path. Statements only. *)
-From LogV Require Import Base.Bytes Model.Rolling Proofs.RollingProofs.
+From LogV Require Import Base.Bytes Model.Rolling Proofs.RollingProofs Model.RollingConc Proofs.RollingConcProofs.
 From Coq Require Import Permutation.
 Open Scope Z_scope.
 
@@ -34,6 +34,91 @@ Print Assumptions c19_retry_next_boundary.
 Theorem c19_fds_bounded : forall s, (open_fds s <= 2)%nat.
 Proof. exact fds_bounded. Qed.
 Print Assumptions c19_fds_bounded.
+
+(* ---------------- create faults under concurrency (Model/RollingConc.v: createFile may fail at ANY rotation,
+   any number of goroutines, every atomic operation its own step, the clock advancing at any moment) ---------------- *)
+
+(* the failing step itself: only the goroutine's program counter moves; the current file, oldFile, every descriptor and
+   everything written stay as they are *)
+Theorem c19_conc_failed_create_touches_nothing : forall s t id now, c_thr s t = RClosedOld id now ->
+  cstep s (set_thr s t RToWrite) /\
+  c_file (set_thr s t RToWrite) = c_file s /\ c_old (set_thr s t RToWrite) = c_old s /\ c_fopen (set_thr s t RToWrite) = c_fopen s /\
+  c_fdata (set_thr s t RToWrite) = c_fdata s /\ c_lost (set_thr s t RToWrite) = c_lost s /\ c_curr (set_thr s t RToWrite) = c_curr s.
+Proof. intros s t id now H. split; [eapply cs_create_fail; eassumption|]. repeat split; reflexivity. Qed.
+Print Assumptions c19_conc_failed_create_touches_nothing.
+
+(* nothing accepted is lost or duplicated, whatever fails and whatever the interleaving: every completed call is exactly once
+   in a descriptor's data or in the list of writes that hit a closed descriptor; files only grow by appends *)
+Theorem c19_conc_every_write_exactly_once : forall t0 s t n, creach (c_start t0) s ->
+  (data_count (c_fdata s) (t, n) (c_nfiles s) + cnt (c_lost s) (t, n) = if (n <? c_seq s t)%nat then 1 else 0)%nat.
+Proof. exact every_write_exactly_once. Qed.
+Print Assumptions c19_conc_every_write_exactly_once.
+
+Theorem c19_conc_never_truncated : forall s0 s f, creach s0 s -> exists l, c_fdata s f = c_fdata s0 f ++ l.
+Proof. exact never_truncated. Qed.
+Print Assumptions c19_conc_never_truncated.
+
+(* keeps writing to the file it has: whenever no goroutine is inside a rotation - whatever failed before - the current
+   descriptor is open and is not the one parked in oldFile *)
+Theorem c19_conc_current_open_when_no_rotation_in_flight : forall t0 s,
+  creach (c_start t0) s -> (forall t, rot_of (c_thr s t) = None) -> c_fopen s (c_file s) = true /\ c_old s <> Some (c_file s).
+Proof.
+  intros t0 s Hr Hq. split; [eapply current_open_when_no_rotation_in_flight|eapply old_not_current_when_no_rotation_in_flight]; eassumption.
+Qed.
+Print Assumptions c19_conc_current_open_when_no_rotation_in_flight.
+
+(* a write can hit a closed descriptor only if a rotation j that had created its file and retired this descriptor was still
+   incomplete when the descriptor was loaded, and a different rotation k closed it *)
+Theorem c19_conc_loss_needs_an_unfinished_successful_rotation : forall t0 s t f d0,
+  creach (c_start t0) s -> c_thr s t = RHolding f d0 -> c_fopen s f = false ->
+  exists j k, j <> k /\ c_storers s f j = true /\ c_closer s f = Some k /\ overlaps s d0 j /\ overlaps s d0 k.
+Proof. exact closed_under_writer_storer_and_closer. Qed.
+Print Assumptions c19_conc_loss_needs_an_unfinished_successful_rotation.
+
+(* the call at a boundary whose createFile fails, executed without interference: returns, its line is in the file the
+   appender already had, nothing is lost, currTime has moved on *)
+Theorem c19_conc_solo_create_fails : forall s t, c_thr s t = RIdle -> (c_curr s < c_clk s)%Z ->
+  c_fopen s (c_file s) = true -> c_old s <> Some (c_file s) ->
+  exists s', run s (steps t 4 ++ [AFail t] ++ steps t 2) = Some s' /\
+    c_file s' = c_file s /\ c_curr s' = c_clk s /\ c_clk s' = c_clk s /\ c_old s' = None /\ c_nfiles s' = c_nfiles s /\
+    c_thr s' t = RIdle /\ c_seq s' t = S (c_seq s t) /\ c_lost s' = c_lost s /\ c_fopen s' (c_file s) = true /\
+    c_fdata s' (c_file s) = c_fdata s (c_file s) ++ [((t, c_seq s t), c_clk s)] /\
+    (forall g, g <> c_file s -> c_fdata s' g = c_fdata s g).
+Proof. exact solo_write_create_fails. Qed.
+Print Assumptions c19_conc_solo_create_fails.
+
+(* no second attempt within the interval; the first call after the next boundary attempts the creation again *)
+Theorem c19_conc_plain_then_retry : forall s t d, c_thr s t = RIdle -> (c_curr s < c_clk s)%Z ->
+  c_fopen s (c_file s) = true -> c_old s <> Some (c_file s) -> (0 < d)%Z ->
+  exists s1, run s (steps t 4 ++ [AFail t] ++ steps t 2) = Some s1 /\
+    (exists s2, run s1 (steps t 4) = Some s2 /\ c_file s2 = c_file s /\ c_nfiles s2 = c_nfiles s /\ c_lost s2 = c_lost s /\
+        c_fdata s2 (c_file s) = c_fdata s (c_file s) ++ [((t, c_seq s t), c_clk s)] ++ [((t, S (c_seq s t)), c_clk s)]) /\
+    (exists s3, run s1 (ATick d :: steps t 11) = Some s3 /\ c_file s3 = c_nfiles s /\ c_fname s3 (c_nfiles s) = (c_clk s + d)%Z /\
+        c_old s3 = Some (c_file s) /\ c_lost s3 = c_lost s /\ c_curr s3 = (c_clk s + d)%Z).
+Proof. exact failed_create_then_plain_then_retry. Qed.
+Print Assumptions c19_conc_plain_then_retry.
+
+(* "keeps writing to the file it already has" is NOT unconditional under concurrency: with one rotation stalled between
+   oldFile.Store and file.Store across a whole interval, a failing createFile at the next boundary leaves the current
+   descriptor closed, and writes are dropped (EBADF, ignored) although that stalled rotation is the only one in flight.
+   Same named timing hypothesis as C13 (a goroutine suspended between two atomic operations for a whole interval). *)
+Theorem c19_conc_unconditional_refuted :
+  exists s, creach (c_start 0) s /\ c_lost s = [(1, 0); (2, 0)]%nat /\ c_thr s 0%nat = RStoredOld 0%nat 1%Z 1%nat /\
+            c_thr s 1%nat = RIdle /\ c_thr s 2%nat = RIdle /\ c_fopen s (c_file s) = false.
+Proof. exact fault_loses_write_with_one_rotation_in_flight. Qed.
+Print Assumptions c19_conc_unconditional_refuted.
+
+(* non-vacuity: the state right after Start meets the hypotheses of the solo theorems once the clock has passed a boundary *)
+Example c19_conc_ex :
+  let s := {| c_clk := 1; c_curr := c_curr (c_start 0); c_file := c_file (c_start 0); c_old := c_old (c_start 0); c_nfiles := c_nfiles (c_start 0);
+              c_fname := c_fname (c_start 0); c_fopen := c_fopen (c_start 0); c_fdata := c_fdata (c_start 0); c_thr := c_thr (c_start 0);
+              c_seq := c_seq (c_start 0); c_lost := c_lost (c_start 0); c_started := 0; c_done := c_done (c_start 0); c_movers := c_movers (c_start 0);
+              c_storers := c_storers (c_start 0); c_closer := c_closer (c_start 0); c_old_by := None |} in
+  c_thr s 0%nat = RIdle /\ (c_curr s < c_clk s)%Z /\ c_fopen s (c_file s) = true /\ c_old s <> Some (c_file s) /\
+  option_map (fun s' => (c_file s', c_nfiles s', c_lost s', map (fun x => snd (fst x)) (c_fdata s' 0%nat)))
+    (run s (steps 0 4 ++ [AFail 0%nat] ++ steps 0 2 ++ steps 0 4 ++ [ATick 1] ++ steps 0 11))
+  = Some (1%nat, 2%nat, [], [0; 1]%nat).
+Proof. vm_compute. repeat split; try reflexivity. discriminate. Qed.
 
 Example c19_ex :
   let s0 := f_init 100 2 [] in
